@@ -82,7 +82,7 @@ def showSt (s : St SDec) (old : Nat) : String :=
     | some b => Bytes.toHex b
   let added := s.traffic.drop old
   s!"cd={b01 s.canDecrypt} ch={b01 s.chSeen} ver={showVer s.ver} scc={b01 s.srvCC} ccc={b01 s.cliCC} dec={dec} cr={cr} " ++
-    s!"n={s.traffic.length} new=[{";".intercalate (added.map showEntry)}]"
+    s!"n={s.traffic.length} new=[{";".intercalate (added.map showEntry)}] hbc={Bytes.toHex s.hsBufC} hbs={Bytes.toHex s.hsBufS}"
 
 /-- ops: `new <meta 0|1>` → `ok`;  `rec <srv 0|1> <id> <rawhex>` → the state after `handle_tls_record` and the
     entries it appended, or `raised` if an exception escapes -/
